@@ -6,6 +6,7 @@ Record pload_case := mk_pload {
   pl_root : blk;                      (* the whole tree as blocks *)
   pl_path : bytes;                    (* the path string given to UnixFSPathSelectorBuilder *)
   pl_hashes : list (bytes * bytes);   (* murmur3-x64-64 of every segment *)
+  pl_preload : bool;                  (* target selector: false = lazy match, true = preloading match *)
   pl_loads : list N                   (* the traversal's storage requests up to the match, as preorder indices *)
 }.
 
@@ -14,7 +15,8 @@ Definition hash_of (hs : list (bytes * bytes)) (k : bytes) : bytes :=
 
 Definition pload_ok (c : pload_case) : bool :=
   let order := preorder (pl_root c) in
-  let tr := snd (walk_path nofault (hash_of (pl_hashes c)) (pl_root c) (parse_path (pl_path c))) in
+  let tr := if pl_preload c then walk_then_preload nofault (hash_of (pl_hashes c)) (pl_root c) (parse_path (pl_path c))
+            else snd (walk_path nofault (hash_of (pl_hashes c)) (pl_root c) (parse_path (pl_path c))) in
   list_eqb N.eqb (map (fun b => match index_of b order 0 with Some i => i | None => 999999 end) tr) (pl_loads c).
 
 Definition mismatches_pload (cs : list pload_case) : list N := mismatches pload_ok cs.
